@@ -172,7 +172,7 @@ func (w *_nodeRepr) LookupByIndex(idx int64) (datamodel.Node, error) {
 		return w.asKinded(stg, datamodel.Kind_List).LookupByIndex(idx)
 	case schema.StructRepresentation_Tuple:
 		fields := w.schemaType.(*schema.TypeStruct).Fields()
-		if idx < 0 || int(idx) >= len(fields) {
+		if idx < 0 || idx >= w.lengthMinusTrailingAbsents() {
 			return nil, datamodel.ErrNotExists{Segment: datamodel.PathSegmentOfInt(idx)}
 		}
 		field := fields[idx]
